@@ -71,13 +71,13 @@ theorem eval_len_left (c : Ctx) :
   simp only [eval, Ctx.side]
   cases pyLen c.left.v <;> rfl
 
-/-- `(int, float) if cls.value == int or cls.value == float else cls.value` -/
+/-- `value = unwrap_value(cls.value)`, then `(int, float) if value == int or value == float else value` -/
 def widenExpr : CondExpr :=
-  .ite (.or_ (.cmp .eq (.value .right) (.tyLit .int)) (.cmp .eq (.value .right) (.tyLit .float)))
-    (.tuple2 (.tyLit .int) (.tyLit .float)) (.value .right)
+  .ite (.or_ (.cmp .eq (.unwrap (.value .right)) (.tyLit .int)) (.cmp .eq (.unwrap (.value .right)) (.tyLit .float)))
+    (.tuple2 (.tyLit .int) (.tyLit .float)) (.unwrap (.value .right))
 
 theorem eval_widen (c : Ctx) : ∃ w, eval c widenExpr = .ok w ∧ w.v = widenCls c.right.v := by
-  simp only [widenExpr, eval, evalCmp, Ctx.side]
+  simp only [widenExpr, eval, evalCmp, Ctx.side, V.unwrapped]
   cases hv : c.right.v with
   | typ t => cases t <;> simp [pyEq, V.ofBool, V.fresh, truthy, widenCls, hv]
   | _ => simp [pyEq, num?, V.ofBool, V.fresh, truthy, widenCls, hv]
@@ -122,6 +122,29 @@ theorem eval_equalityTest_params (c : Ctx) :
     show ("delta" == "exact_strings") = false from by decide,
     show ("delta" == "delta") = true from by decide, if_true, Bool.false_eq_true, if_false, V.fresh]
   cases deltaOf c.delta <;> rfl
+
+theorem notR_notR (r : Res Bool) : notR (notR r) = r := by
+  cases r with
+  | error e => rfl
+  | ok b => cases b <;> rfl
+
+theorem eval_str_right (c : Ctx) : eval c (.str_ (.value .right)) = .ok (V.fresh (.str (strOfV c c.right))) := by
+  simp only [eval, Ctx.side, strOfV]
+  cases c.right.v <;> rfl
+
+/-- `re.search(unwrap_value(regex.value), str(text.value))` compared with `None` -/
+theorem eval_regex (c : Ctx) (op : CmpOp) :
+    eval c (.cmp op (.reSearch (.unwrap (.value .left)) (.str_ (.value .right))) .noneLit) =
+      match regexRel c with
+      | .ok m => evalCmp op (if m then V.fresh (.obj 1) else V.fresh .none) (V.fresh .none)
+      | .error e => .error e := by
+  rw [eval, eval, eval_str_right]
+  simp only [eval, Ctx.side, regexRel, V.unwrapped, V.fresh]
+  cases hl : c.left.v <;> simp
+  case str ps =>
+    cases hs : c.search ps (strOfV c c.right) with
+    | error e => simp [Except.map]
+    | ok m => cases m <;> simp [Except.map]
 
 theorem pyIs_none_right (x : V) (h : x.px = false) : pyIs x (V.fresh .none) = isNoneVal x.v := by
   unfold pyIs
